@@ -508,6 +508,44 @@ Section Move.
   Qed.
 End Move.
 
+(* ---------------------------------------------------------------- helpers that relate two instances of the invariant *)
+Lemma created_finish p s fr rest :
+  frames s = fr :: rest -> f_todo fr = [] ->
+  forall o, created_of p s o <-> created_of p (set_frames (set_mst s (f_mod fr) PROCESSED) rest) o.
+Proof.
+  intros Hf Ht.
+  assert (Hpend : forall m i, pending_of (set_frames (set_mst s (f_mod fr) PROCESSED) rest) m i <-> pending_of s m i).
+  { intros m i. unfold pending_of. cbn [set_frames set_mst unproc frames]. rewrite Hf. split.
+    - intros [H|(fr0 & st & Hin & Hm & Hst)]; [left; exact H|right; exists fr0, st; split; [right; exact Hin|auto]].
+    - intros [H|(fr0 & st & [<-|Hin] & Hm & Hst)]; [left; exact H|rewrite Ht in Hst; destruct Hst|right; eauto]. }
+  intros o. unfold created_of. rewrite Hpend. tauto.
+Qed.
+
+Lemma Inv_cross p nmA parA GoodA nmB parB (GoodB : state -> Prop) s fr rest op todo s1 fr1 cur :
+  Inv p nmA parA GoodA s -> frames s = fr :: rest -> f_todo fr = op :: todo -> same_ctl s s1 ->
+  f_mod fr1 = f_mod fr -> f_todo fr1 = todo ->
+  Ctl p (set_frames s1 (fr1 :: rest)) -> GoodB (set_frames s1 (fr1 :: rest)) ->
+  OA p nmB parB (created_of p (set_frames s1 (fr1 :: rest))) s1 ->
+  OR p nmB parB (created_of p (set_frames s1 (fr1 :: rest))) s1 ->
+  meta_weak cur s s1 -> Inv p nmB parB GoodB (set_frames s1 (fr1 :: rest)).
+Proof.
+  intros HI Hf Ht Hctl Hfm Hft HC2 HG2 HA HR HM. constructor.
+  - exact HC2.
+  - eapply (OA_same p nmB parB _ s1); [reflexivity|reflexivity|exact HA].
+  - eapply (OR_same p nmB parB _ s1); [reflexivity|exact HR].
+  - intros fr0. cbn [set_frames frames]. intros [<-|Hin].
+    + destruct (op_mi p nmA parA GoodA s fr rest op todo HI Hf Ht) as (mi & pre & Hmi & He).
+      exists mi, (pre ++ [op]). rewrite Hfm, Hft, <- app_assoc. split; [exact Hmi|exact He].
+    + apply (i_suffix p _ _ _ s HI). rewrite Hf. right. exact Hin.
+  - intros m' mb mi Hmb Hmi. cbn [set_frames objs unproc] in *.
+    destruct Hctl as (_ & Hu & _). rewrite Hu.
+    pose proof (created_module p s m' mi Hmi) as Hc. apply (oa_exists _ _ _ _ _ (i_oa p _ _ _ s HI)) in Hc.
+    destruct (objs s (m', 0, 0)) as [mb0|] eqn:E0; [|congruence].
+    destruct (HM _ _ E0) as (mb1 & E1 & D1 & D2 & _). rewrite Hmb in E1. inversion E1; subst mb1.
+    rewrite D1, D2. exact (i_meta p _ _ _ s HI m' mb0 mi E0 Hmi).
+  - exact HG2.
+Qed.
+
 (* ================================================================ the machine with one designated re-export *)
 Lemma expand_from_app a : forall k b,
   expand_from k (a ++ b) = expand_from k a ++ expand_from (k + N.of_nat (length a)) b.
@@ -578,7 +616,7 @@ Section MoveMachine.
     f_equal. cbn [app]. do 2 f_equal.
     change (flat_map (fun oa : N * N => [MEnsureSub (fst oa); MImportName (fst oa) (snd oa)]) (npre ++ (xname, n) :: npost))
       with (names_ops (npre ++ (xname, n) :: npost)).
-    rewrite names_ops_app. rewrite <- app_assoc. f_equal. cbn [names_ops flat_map fst snd app]. do 2 f_equal.
+    rewrite names_ops_app. rewrite <- app_assoc. f_equal.
   Qed.
 
   Lemma desig_in_app a b : desig_in (a ++ b) = desig_in a || desig_in b.
@@ -596,23 +634,82 @@ Section MoveMachine.
     (forall lv m' nms oa, In (SImportFrom lv m' nms) l -> In oa nms -> snd oa <> n) -> desig_in (expand_from k l) = false.
   Proof.
     induction l as [|st l IH]; intros k H; cbn [expand_from]; [reflexivity|].
-    rewrite desig_in_app, IH by (intros lv m' nms oa Hin; apply H; right; exact Hin). rewrite orb_false_r.
+    rewrite desig_in_app, IH by (intros lv m' nms oa Hin; apply (H lv m' nms oa); right; exact Hin). rewrite orb_false_r.
     destruct st; cbn [expand_stmt desig_in existsb is_desig]; try reflexivity.
     change (desig_in (names_ops names) = false). apply desig_names_ops.
-    intros oa Hin. eapply H; [left; reflexivity|exact Hin].
+    intros oa Hin. eapply (H level modname names oa); [left; reflexivity|exact Hin].
   Qed.
 
   Lemma desig_PRE : desig_in PRE = false.
-  Proof. apply desig_expand_from. intros lv m' nms oa Hin. apply HR_once_stmts with lv m' nms. apply in_or_app. left. exact Hin. Qed.
+  Proof. apply desig_expand_from. intros lv m' nms oa Hin. apply (HR_once_stmts lv m' nms oa). apply in_or_app. left. exact Hin. Qed.
   Lemma desig_NPRE : desig_in NPRE = false.
   Proof. apply desig_names_ops. intros oa Hin. apply HR_once_names. apply in_or_app. left. exact Hin. Qed.
   Lemma desig_REST : desig_in REST = false.
   Proof.
     unfold REST. rewrite desig_in_app. rewrite desig_names_ops by (intros oa Hin; apply HR_once_names; apply in_or_app; right; exact Hin).
-    apply desig_expand_from. intros lv m' nms oa Hin. apply HR_once_stmts with lv m' nms. apply in_or_app. right. exact Hin.
+    apply desig_expand_from. intros lv m' nms oa Hin. apply (HR_once_stmts lv m' nms oa). apply in_or_app. right. exact Hin.
   Qed.
   Lemma desig_T1 : desig_in T1 = true.
   Proof. unfold T1. rewrite desig_in_app. cbn [desig_in existsb is_desig]. rewrite N.eqb_refl, !orb_true_r. reflexivity. Qed.
   Lemma desig_expand_R : desig_in (expand_stmts (m_stmts miR)) = true.
   Proof. rewrite expand_R, desig_in_app. cbn [desig_in existsb is_desig]. fold (desig_in T1). rewrite desig_T1, !orb_true_r. reflexivity. Qed.
+
+  (* the designated operation occurs once in T1 *)
+  Lemma unique_split d l2 op t : forall l1 q,
+    desig_in l1 = false -> desig_in l2 = false -> is_desig d = true ->
+    l1 ++ d :: l2 = q ++ op :: t ->
+    (is_desig op = true -> q = l1 /\ op = d /\ t = l2) /\ (desig_in t = true -> In op l1).
+  Proof.
+    induction l1 as [|a l1 IH]; intros q Hl1 Hl2 Hd E.
+    - destruct q as [|a' q']; cbn [app] in E; inversion E; subst.
+      + split; [auto|]. intros Ht. congruence.
+      + rewrite desig_in_app in Hl2. cbn [desig_in existsb] in Hl2. fold (desig_in t) in Hl2.
+        apply orb_false_iff in Hl2. destruct Hl2 as [_ Hl2]. apply orb_false_iff in Hl2. destruct Hl2 as [Ho Ht].
+        split; [intros Hx; congruence|intros Hx; congruence].
+    - cbn [desig_in existsb] in Hl1. fold (desig_in l1) in Hl1. apply orb_false_iff in Hl1. destruct Hl1 as [Ha Hl1].
+      destruct q as [|a' q']; cbn [app] in E; inversion E; subst.
+      + split; [intros Hx; congruence|intros _; left; reflexivity].
+      + destruct (IH q' Hl1 Hl2 Hd H3) as [A B]. split.
+        * intros Hx. destruct (A Hx) as (-> & -> & ->). auto.
+        * intros Hx. right. apply B. exact Hx.
+  Qed.
+
+  Definition L1 : list mop := NPRE ++ [MEnsureSub xname].
+  Lemma T1_eq : T1 = L1 ++ MImportName xname n :: REST.
+  Proof. unfold T1, L1. rewrite <- app_assoc. reflexivity. Qed.
+  Lemma desig_L1 : desig_in L1 = false.
+  Proof. unfold L1. rewrite desig_in_app, desig_NPRE. reflexivity. Qed.
+
+  Lemma names_ops_kind l op : In op (names_ops l) -> (exists o, op = MEnsureSub o) \/ (exists o a, op = MImportName o a).
+  Proof.
+    induction l as [|oa l IH]; cbn [names_ops flat_map app In]; [tauto|].
+    intros [<-|[<-|H]]; [left; eauto|right; eauto|apply IH; exact H].
+  Qed.
+  Lemma L1_kind op : In op L1 -> (exists o, op = MEnsureSub o) \/ (exists o a, op = MImportName o a).
+  Proof.
+    unfold L1. rewrite in_app_iff. intros [H|[<-|[]]]; [apply (names_ops_kind npre); exact H|left; eauto].
+  Qed.
+
+  Lemma T1_split q op t :
+    T1 = q ++ op :: t ->
+    (is_desig op = true -> op = MImportName xname n /\ desig_in t = false) /\
+    (desig_in t = true -> is_desig op = false /\ ((exists o, op = MEnsureSub o) \/ (exists o a, op = MImportName o a))).
+  Proof.
+    intros E. rewrite T1_eq in E.
+    assert (Hd : is_desig (MImportName xname n) = true) by (cbn; apply N.eqb_refl).
+    destruct (unique_split _ _ _ _ L1 q desig_L1 desig_REST Hd E) as [A B]. split.
+    - intros Hx. destruct (A Hx) as (_ & -> & ->). split; [reflexivity|apply desig_REST].
+    - intros Hx. pose proof (B Hx) as Hin. split; [|apply L1_kind; exact Hin].
+      destruct (is_desig op) eqn:Eo; [|reflexivity]. destruct (A eq_refl) as (_ & _ & ->). rewrite desig_REST in Hx. discriminate.
+  Qed.
+
+  (* a module without from-imports only has statement operations *)
+  Lemma expand_local_only l : forall k, (forall st, In st l -> local_stmt st = true) ->
+    forall op, In op (expand_from k l) -> exists i st, op = MStmt i st.
+  Proof.
+    induction l as [|st l IH]; intros k Hl op; cbn [expand_from]; [intros []|].
+    rewrite in_app_iff. intros [H|H]; [|apply (IH (k + 1)); [intros st' Hin; apply Hl; right; exact Hin|exact H]].
+    pose proof (Hl st (or_introl eq_refl)) as Hloc.
+    destruct st; cbn [local_stmt] in Hloc; try discriminate; cbn [expand_stmt In] in H; destruct H as [<-|[]]; eauto.
+  Qed.
 End MoveMachine.
